@@ -151,7 +151,7 @@ def strace_sample(ctx, binpath):
 def run(ctx):
     binpath = server_bin("rel")
     jobs = []
-    step = 2 if ctx.quick else 1
+    step = 1
     for kind in ("ascii", "unicode"): jobs += [(kind, i, NCPU // 2, "two-way", ctx.seed, step) for i in range(NCPU // 2)]
     for p in pmap(worker, jobs): ctx.merge(p)
     jobs = []
